@@ -230,7 +230,9 @@ def run_property(prop, tier="quick", repo_root="/repo", seed=0, only=None, verbo
         ground_checks=extra["ground"],
         explanation="contract-based deductive verification: VCs generated from the current /repo AST by pyvc and discharged by SMT; level is 'proof' only when every generated obligation is discharged, no function is out of reach and no canary is vacuous",
     )
-    evidence = dict(property_id=prop, tier=tier, seed=seed, level=level, coverage=cov, assumptions=ASSUMPTIONS_COMMON + extra["assumptions"], wall_s=round(wall, 2), violations=len(violations))
+    model_assumptions = ["abstract property read as a heap field: %s" % a for a in spec.abstract_props] + [
+        "A4 dispatch: receivers of static class %s are %s instances" % kv for kv in spec.dispatch.items()]
+    evidence = dict(property_id=prop, tier=tier, seed=seed, level=level, coverage=cov, assumptions=ASSUMPTIONS_COMMON + model_assumptions + extra["assumptions"], wall_s=round(wall, 2), violations=len(violations))
     if write_evidence:
         os.makedirs(os.path.join(VERIF, "evidence"), exist_ok=True)
         json.dump(evidence, open(os.path.join(VERIF, "evidence", "%s.json" % prop), "w"), indent=1, default=str)
